@@ -1520,7 +1520,10 @@ pub async fn handle_cache(
                 // - 1s because the sent datetime floors the seconds, so the `creation`
                 // datetime is 0-1s ahead.
                 timestamp >= creation - 1.seconds()
-            });
+            })
+                // Only what is in the cache can be vouched for: the item may hold other
+                // variants of the page but not the one this request selects.
+                && resp.get_by_request(request).is_ok();
 
             // We don't need to check for `host.options.disable_if_modified_since`
             // but `if_modified_since` is `None` and therefore `client_request` is false
